@@ -106,12 +106,13 @@ One == <<1>>
 NetOutputs(n) == IF "V2" \in DOMAIN n THEN <<n.V, n.V2>> ELSE <<n.V>>     \* an optional second output (only observed, never used by the equations)
 SubRec(r, u) == [lkind |-> r.lkind, dim |-> r.dim, V |-> NetOutputs(r.nets[u]), ot |-> "none", sol |-> <<1, Len(NetOutputs(r.nets[u]))>>, th |-> r.th, ptab |-> r.ptab,
                  R |-> <<>>, het |-> [k \in DOMAIN r.th |-> <<>>], w |-> [dyn |-> One, ic |-> One, norm |-> One, bnd |-> One, obs |-> One],
-                 inside |-> r.inside, border |-> r.border, ic |-> r.nets[u].ic, norm |-> [on |-> FALSE],
+                 inside |-> r.inside, border |-> r.border, ic |-> r.nets[u].ic,
+                 norm |-> IF "norm" \in DOMAIN r.nets[u] THEN r.nets[u].norm ELSE [on |-> FALSE],      \* per-unknown normalisation samples / volume
                  bnd |-> r.nets[u].bnd, obsd |-> r.nets[u].obsd]
 SysTerms(r) ==
     [dyn_loss |-> SysDyn(r),
      initial_condition |-> QSum([u \in DOMAIN r.nets |-> QMul(QI(r.wu[u].ic), IC(SubRec(r, u)))]),
-     norm_loss |-> QI(0),
+     norm_loss |-> QSum([u \in DOMAIN r.nets |-> QMul(QI(r.wu[u].norm), Norm(SubRec(r, u)))]),
      boundary_loss |-> QSum([u \in DOMAIN r.nets |-> QMul(QI(r.wu[u].bnd), Bnd(SubRec(r, u)))]),
      observations |-> QSum([u \in DOMAIN r.nets |-> QMul(QI(r.wu[u].obs), Obs(SubRec(r, u)))])]
 (* a one-equation one-unknown system is the plain loss *)
